@@ -106,10 +106,15 @@ type Options struct {
 
 // ApplyForURL runs distiller for the specified URL.
 func ApplyForURL(url string, timeout time.Duration, opts *Options) (*Result, error) {
-	// Make sure URL absolute
-	parsedURL, err := nurl.ParseRequestURI(url)
+	// Make sure URL absolute. It may carry a fragment, so it is not parsed as a
+	// request URI (which would take "#top" for a part of the path).
+	parsedURL, err := nurl.Parse(url)
 	if err != nil {
 		return nil, err
+	}
+
+	if !parsedURL.IsAbs() {
+		return nil, fmt.Errorf("URL is not absolute: %s", url)
 	}
 
 	// Fetch page from URL
